@@ -177,6 +177,8 @@ pub enum Profile {
     CrashySparse,
     /// fill a self-formatted image until the host file outgrows its refcount table (C12)
     Grow,
+    /// many L1 entries (several blocks of the L1 table) with general operations (C17, C02)
+    TopBlocks,
     /// writes on both sides of L2 slice boundaries, flush / reopen (cold caches), discards and
     /// multi-cluster operations across the boundaries (C18, C17: loads in the middle of an operation)
     SliceCross,
@@ -305,6 +307,15 @@ pub fn gen_case(seed: u64, id: usize, profile: Profile, nops: usize) -> Case {
         c.size = rng.range(130, 200) * cs;
         c.rb = Some((9, (*rng.pick(&[2usize, 3, 4, 8])) << 9));
         c.l2 = pick_slice(&mut rng, 9, c.cb, false);
+    }
+    if profile == Profile::TopBlocks {
+        // 512-byte clusters: 64 clusters per L2 table; 100..250 L1 entries = 2..4 blocks of 64
+        c.cb = 9;
+        c.bsb = 9;
+        c.ro = *rng.pick(&[4u8, 4, 5, 3]);
+        c.size = rng.range(6400, 16000) * 512;
+        c.l2 = Some((9, (*rng.pick(&[2usize, 4, 8, 16])) << 9));
+        c.rb = pick_slice(&mut rng, 9, c.cb, true);
     }
     if profile == Profile::SliceCross {
         c.cb = *rng.pick(&[9usize, 10]);
@@ -580,6 +591,7 @@ pub fn gen_ops(rng: &mut Rng, c: &mut Case, profile: Profile, nops: usize) {
     let profile = match profile {
         Profile::CrashySparse => Profile::Crashy,
         Profile::Sparse => Profile::General,
+        Profile::TopBlocks => Profile::General,
         p => p,
     };
     let _ = profile_geom;
@@ -716,7 +728,7 @@ pub fn gen_ops(rng: &mut Rng, c: &mut Case, profile: Profile, nops: usize) {
                     Op::Flush
                 }
             }
-            Profile::CrashySparse | Profile::Sparse => unreachable!(),
+            Profile::CrashySparse | Profile::Sparse | Profile::TopBlocks => unreachable!(),
             Profile::SliceCross => {
                 let span = 64 * cs; // guest bytes per L2 slice
                 let nsl = c.size / span;
